@@ -60,6 +60,9 @@ let () =
     let os = if c = "default" then run_default ss else run_with (cfg_of c) ss in
     String.concat " " (List.map obs_str os));
   reg "refresh.config" (fun [] -> "config " ^ cfg_str default_config);
+  (* refresh.parse <now> <hex of the response head (for the harness)> <reply(18)>: echoes the reply and appends reply->expires *)
+  reg "refresh.parse" (fun [now; _; r] ->
+    "parsed " ^ r ^ " " ^ string_of_z (hdr_expiration_time (reply_of (ints r)) (z_of_string now)));
   (* refresh.check <cfg> <entry: timestamp,expires,lastmod,reval_always,reval_stale,immutable> <now> <delta> <req(11)|-> *)
   reg "refresh.check" (fun [c; e; now; delta; q] ->
     match ints e with
